@@ -21,6 +21,89 @@ CLAIMS = {
              "(N<=5 quick, N=6 thorough) and every completion order of the three executor flavours, each combination "
              "is called exactly once and its result sits in its own slot.  'Confirmed over all paths' per condition; "
              "counterexamples are replayed on the real random module before being reported."),
+    "C03": dict(
+        engine="A", category="model_checking", design_ref="DESIGN.md 5/C03",
+        technique="CrossHair symbolic execution of the real combo_runner_to_ds / case_runner_to_ds / results_to_ds / "
+                  "results_to_df / parse_var_* / Runner / label code over a conformance-checked pure-Python model of "
+                  "xarray and pandas; payloads, constant, spellings, shuffle permutation are solver variables",
+        text="Bounded symbolic model checking of the labelling logic: for grids up to 3x2 and case sets up to 4 "
+             "points, 1-2 output variables with optional internal dimension, five spellings of the output "
+             "description, constants that are / are not dimensions, resources, attrs, three entry points, and every "
+             "shuffle permutation (Dataset N<=4, DataFrame N<=5): dims, coords, every labelled cell, attrs and every "
+             "DataFrame row are as the property states."),
+    "C05": dict(
+        engine="A", category="model_checking", design_ref="DESIGN.md 5/C05",
+        technique="CrossHair symbolic execution of the real Harvester / save_ds / load_ds / save_merge_ds code over "
+                  "MiniXR + FakeFS against a cell-level ghost oracle; cell presence/NaN/value, policies, sessions, "
+                  "name spelling, engine are solver variables; one-step inductive form in the thorough tier",
+        text="Histories of two operations (add_ds / harvest_combos / harvest_cases / save_merge_ds, plus "
+             "expand_dims / drop_sel) over 3 coordinates x 1 variable with every cell pattern, the three overwrite "
+             "policies, data names with and without extension, h5netcdf|joblib, new Harvester objects, sync off: "
+             "memory = disk = policy(ghost); conflicts raise and change nothing.  Thorough: one-step induction "
+             "from an arbitrary consistent state."),
+    "C06": dict(
+        engine="A", category="model_checking", design_ref="DESIGN.md 5/C06",
+        technique="CrossHair symbolic execution of the real farmer-attached crop code (Runner/Harvester/Sampler.Crop, "
+                  "reap_runner/reap_harvest/reap_samples) compared with the direct run over MiniXR/MiniPD/FakeFS",
+        text="Runner crops (grids <=2x2, case subsets, 1-2 variables, internal dimension, constant as dimension, "
+             "resource, attr, all batchings, sow-time shuffle permutations, reload by name), Harvester crops (earlier "
+             "equal/conflicting data x three policies) and Sampler crops (same drawn indices) deliver what the direct "
+             "run delivers: same Dataset / table in memory, on disk and as last result."),
+    "C10": dict(
+        engine="A", category="fault_enumeration", design_ref="DESIGN.md 5/C10",
+        technique="CrossHair over a step-level file-system model (StepFS): the kill instant is a solver variable "
+                  "(crash budget over every file-system mutation step of sow / re-sow / grow / grow_missing / reap for "
+                  "raw, Runner, Harvester and Sampler crops); counterexamples replayed on the real disk with the same "
+                  "step counter",
+        text="Solver-enumerated crash points: for every kill instant of every phase on 2-batch crops (K=2 chunks per "
+             "file; thorough: second kill during recovery, both rmtree orders): a fresh process's reap refuses or is "
+             "exact, the documented recovery reaches the direct-run result, data already in a harvester file or "
+             "sampler table survives.  One known finding (sampler duplicate-on-retry window) is listed and probed."),
+    "C11": dict(
+        engine="A", category="model_checking", design_ref="DESIGN.md 5/C11",
+        technique="CrossHair over StepFS timelines: each file's visible state is a solver-chosen monotone position "
+                  "in the sequence of states its grower produces, advanced before every observation of the reaper / "
+                  "poller (all interleavings up to partial-order equivalence for writers of distinct files); "
+                  "counterexample schedules replayed with real threads on the real disk",
+        text="1-2 concurrent growers (K=2; thorough K=3) and a reap(wait=True) or a progress poller: for every "
+             "placement of the reader's observations relative to the writers' steps the reaper returns exactly the "
+             "direct-run result and progress queries never count a partly written result."),
+    "C13": dict(
+        engine="A", category="model_checking", design_ref="DESIGN.md 5/C13",
+        technique="CrossHair symbolic execution of the real is_case_missing / find_missing_cases / parse_into_cases "
+                  "over MiniXR with each cell's null kind a solver variable (null tests stay symbolic: one z3 term "
+                  "per location)",
+        text="Datasets with <= 6 locations, 1-2 variables, optional internal dimension (ignored or not), every "
+             "finite/NaN/inf pattern, both null criteria, requested combos/cases incl. absent labels, and the "
+             "find -> harvest -> find loop: exactly the all-null locations are reported, in grid order."),
+    "C14": dict(
+        engine="A", category="other", design_ref="DESIGN.md 5/C14",
+        technique="CrossHair symbolic execution of the real auto_add_extension / save_ds / load_ds / save_merge_ds / "
+                  "Harvester file methods with the file name a symbolic str (z3 strings) and recording back ends",
+        text="PARTIAL claim: (i) one file name used by saving, loading, merging and the Harvester's load/save/delete "
+             "for every name of length <=5 (7 thorough) and engine; (ii) the extension rule; (iii) attribute "
+             "rewriting exactly for None/True/False and netCDF engines; (iv) invalid_netcdf for complex data; (v) "
+             "chunks / load_to_mem handling.  NOT decided: that h5netcdf / joblib read back the same dims, coords, "
+             "values, NaNs, complex numbers (C libraries behind a file).",
+        note="Trusted base: CrossHair + z3 string theory; back ends are recording stubs."),
+    "C15": dict(
+        engine="A", category="model_checking", design_ref="DESIGN.md 5/C15",
+        technique="CrossHair symbolic execution of the real Sampler code (sample_combos, add_df, save/load, "
+                  "sow_samples/grow/reap) over MiniPD + FakeFS with the drawn indices solver-chosen",
+        text="Two-run histories (n<=2) with combos override, direct or through a crop, fresh Sampler objects, "
+             "pickle|csv, shuffle: exactly n rows appended, earlier rows unchanged, rows pair drawn arguments with the "
+             "function's value, disk = memory, a new sampler continues."),
+    "C16": dict(
+        engine="A", category="other", design_ref="DESIGN.md 5/C16",
+        technique="CrossHair symbolic execution of the real gen_cluster_script + the generated Python program "
+                  "(compiled from the here-document) with the array task index a solver variable",
+        text="PARTIAL claim (Python side): for SGE/PBS/SLURM x array/single x every finished subset and every "
+             "requested id subset of crops with B<=3 (4) batches x every task index of the header range, the embedded "
+             "program is valid Python and grows exactly the intended batch (order-preserving bijection), after which "
+             "the crop is ready with exact results; the CLI grows exactly the missing batches.  NOT decided: bash "
+             "itself.",
+        note="Trusted base: CrossHair; the shell is modelled as substitution of the task variable in an unquoted "
+             "here-document."),
     "C04": dict(
         engine="A", category="model_checking", design_ref="DESIGN.md 5/C04",
         technique="CrossHair symbolic execution of the real Crop/Sower/Reaper/grow code on an in-memory file system; "
@@ -62,8 +145,9 @@ CLAIMS = {
         engine="A", category="model_checking", design_ref="DESIGN.md 5/C12",
         technique="CrossHair symbolic execution of the real reap paths with solver-chosen clean_up/allow_incomplete/"
                   "wait and failure stage, followed by the corrected retry",
-        text="All combinations of clean_up x allow_incomplete x wait x failure stage on raw crops (farmer kinds to "
-             "follow): the crop directory survives every reap that raises and every reap whose effective clean_up "
+        text="All combinations of clean_up x allow_incomplete x wait x failure stage on raw crops, and farmer kinds "
+             "(Runner/Harvester/Sampler) x failure stage (wrong var_names, merge conflict, failing save): the crop "
+             "directory survives every reap that raises and every reap whose effective clean_up "
              "is false; the corrected retry returns exactly the direct-run result."),
     "C19": dict(
         engine="A", engine_override="AB", category="other", design_ref="DESIGN.md 5/C19",
